@@ -46,6 +46,7 @@ type HReq struct {
 	Who      string       `json:"who"`   // tagged user anon whois-error https-cap both-caps plain-empty malformed-grant malformed-types
 	Rules    []model.Rule `json:"rules"` // granted (under the plain cap unless Who says otherwise)
 	Rules2   []model.Rule `json:"rules2"` // under the https:// cap for both-caps
+	Spoof    string       `json:"spoof"`  // "" or a header claiming another source/identity (X-Forwarded-For, X-Real-Ip, Forwarded, Tailscale-User-Login)
 }
 
 type HTTPCase struct {
@@ -308,6 +309,14 @@ func runC08(t *testing.T, c HTTPCase) (*h.Violation, h.Info) {
 		if r.Hdr != "-" {
 			req.Header.Set("Sec-X-Tailscale-No-Browsers", r.Hdr)
 		}
+		switch r.Spoof {
+		case "X-Forwarded-For", "X-Real-Ip":
+			req.Header.Set(r.Spoof, "100.64.9.9")
+		case "Forwarded":
+			req.Header.Set("Forwarded", "for=100.64.9.9:4141")
+		case "Tailscale-User-Login":
+			req.Header.Set("Tailscale-User-Login", "root@example.com")
+		}
 		_, _, effective, identified := whoisFor(r)
 		if r.Addr != "known" {
 			identified = false
@@ -551,6 +560,7 @@ func genHReq(rt *rapid.T) HReq {
 	if breaks == 0 {
 		r.BodyKind = rapid.SampledFrom([]string{"valid", "valid", "valid", "valid-variant", "null"}).Draw(rt, "validkind")
 	}
+	r.Spoof = rapid.SampledFrom([]string{"", "", "", "X-Forwarded-For", "X-Real-Ip", "Forwarded", "Tailscale-User-Login"}).Draw(rt, "spoof")
 	return r
 }
 
